@@ -88,7 +88,18 @@ def _variants(pieces, orders):
 _P1 = dict(scale="def scale(a):\n    return a * 3\n", m1=_M("m1", "x", "scale(x) + 1"), m2=_M("m2", "x, source=m1", "source(x) + x"))
 _P2 = dict(fmt="def format(value):\n    return '<%s>' % value\n", rnd="def round(a):\n    return a + 100\n",
            h="def h(a):\n    return [round(a), len([a])]\n", m1=_M("m1", "x", "x + 1"), m2=_M("m2", "x", "[format(x), h(x), m1(x)]"))
+_P3 = dict(mk="def make_counter():\n    seen = []\n\n    def count(a):\n        return a + 0 * len(seen)\n    return count, seen\n\n\ncount, _seen = make_counter()\n",
+           m1=_M("m1", "x", "count(x) + 1"), m2=_M("m2", "x", "[count(x), m1(x)]"), mut="_seen.append('x')\n_seen.append('y')\n")
 RAW += [
+    # module-level sets of strings (their iteration order follows hash randomisation), at top level and inside a list / dict
+    dict(name="set-valued-globals", ms=["m1", "m2"], files={
+        "aux.py": RAW_HEADER + "UNIVERSE = {'alpha', 'beta', 'gamma', 'delta', 'eps', 'zeta'}\nNESTED = [1, {'k': frozenset({'ab', 'cd', 'ef', 'gh'})}]\n",
+        "mod.py": RAW_HEADER + "from . import aux\nTAGS = {'x1', 'y22', 'z333', 'w4444', 'v55555'}\n\n\ndef size(a):\n    return a + len(TAGS)\n\n\n"
+                  "@memento_function(cluster=\"vp\")\ndef m1(x):\n    vrec.REC.enter('m1', x)\n    return [size(x), len(aux.UNIVERSE), len(aux.NESTED)]\n\n\n"
+                  "@memento_function(cluster=\"vp\")\ndef m2(x):\n    vrec.REC.enter('m2', x)\n    return [m1(x), sorted(TAGS)]\n"}),
+    # a plain helper made by a factory, closing over a list that changes after the definitions
+    dict(name="helper-closing-over-state", ms=["m1", "m2"], files={"aux.py": RAW_HEADER, "mod.py": ""},
+         variants=_variants(_P3, [["mk", "m1", "m2", "mut"], ["mk", "m2", "m1", "mut"], ["mk", "m1", "mut", "m2"], ["mk", "mut", "m2", "m1"]])),
     # a memento function as the default value of a parameter of another one, defined before / after the helper it uses
     dict(name="memento-function-as-default", ms=["m1", "m2"], files={"aux.py": RAW_HEADER, "mod.py": ""},
          variants=_variants(_P1, [["scale", "m1", "m2"], ["m1", "scale", "m2"], ["m1", "m2", "scale"]])),
